@@ -11,6 +11,19 @@ import (
 	mxj "github.com/clbanning/mxj/v2"
 )
 
+var storeSite []bool
+
+// siteStores reports whether the yield site follows a statement that can store.
+func siteStores(site int) bool {
+	if storeSite == nil {
+		storeSite = make([]bool, len(mxj.VerifSites))
+		for i, d := range mxj.VerifSites {
+			storeSite[i] = strings.HasPrefix(d, "write ")
+		}
+	}
+	return site < 0 || site >= len(storeSite) || storeSite[site]
+}
+
 func siteName(site int) string {
 	if site >= 0 && site < len(mxj.VerifSites) {
 		return fmt.Sprintf("#%d %s", site, mxj.VerifSites[site])
@@ -548,6 +561,23 @@ func runC17(c *Ctx) *Violation {
 			}
 		}
 	}
+	// a small per-case pool of paths: tasks meet on the same paths (and on a few distinct indexed ones)
+	if len(paths) > 6 {
+		var pool []string
+		var indexed []string
+		for _, p := range paths {
+			if strings.Contains(p, "[") {
+				indexed = append(indexed, p)
+			}
+		}
+		for i := 0; i < 3 && len(indexed) > 0; i++ {
+			pool = append(pool, indexed[t.Draw(len(indexed))])
+		}
+		for len(pool) < 6 {
+			pool = append(pool, paths[t.Draw(len(paths))])
+		}
+		paths = pool
+	}
 	// a small pool of sub-key specifications shared by all tasks (so that two tasks use the same one)
 	specs := []string{keys[t.Draw(len(keys))] + ":*", "!" + keys[t.Draw(len(keys))] + ":v", keys[t.Draw(len(keys))] + ":1:num"}
 
@@ -558,7 +588,7 @@ func runC17(c *Ctx) *Violation {
 	// tasks are inside the same function at the same time
 	focus := -1
 	if t.Draw(3) == 0 {
-		focus = t.Draw(len(c17OpNames) - 1) // (never the expensive deep-document kind, the last one)
+		focus = t.Draw(len(c17OpNames))
 	}
 	castAll := t.Draw(3) == 0 // every private XML decode of this case casts
 	for i := range progs {
@@ -568,7 +598,7 @@ func runC17(c *Ctx) *Violation {
 			if t.Draw(3) > 0 && (o.Kind == 28 || o.Kind == 29) {
 				o.Kind = t.Draw(24) // bias towards the shared value
 			}
-			if o.Kind == 42 && t.Draw(10) > 0 {
+			if o.Kind == 42 && t.Draw(3) > 0 {
 				o.Kind = 24 // deep documents are expensive: keep them rare
 			}
 			if focus >= 0 && t.Draw(2) == 0 {
@@ -700,8 +730,11 @@ func runC17(c *Ctx) *Violation {
 			for _, o := range progs[i] {
 				st := s.tasks[i]
 				st.midShared = o.Shared
+				// a deep private decode takes ~10^5 yields and touches no shared value: the invariants
+				// are evaluated at the other tasks' yields only
+				st.cheap = o.Kind == 42
 				out := o.exec(env)
-				st.midShared = false
+				st.midShared, st.cheap = false, false
 				conc[i] = append(conc[i], out)
 			}
 		})
@@ -714,6 +747,12 @@ func runC17(c *Ctx) *Violation {
 		return pols[s.cur.id].order(site, n)
 	}
 	s.invariant = func(site int) *Violation {
+		// always right after a statement that can store (assignment to shared memory, delete, call
+		// statement); at function-entry and loop yields every fourth time - a store that happened inside
+		// an expression is then seen a few yields later, and in any case at the end of the run
+		if !siteStores(site) && s.step&3 != 0 {
+			return nil
+		}
 		c.C["probe.invariant_evaluations"]++
 		if DigestCap(map[string]interface{}(S)) != d0 || DigestCap(map[string]interface{}(SS)) != dss0 {
 			return &Violation{"C17.s2-shared-receiver-written", fmt.Sprintf("the shared receiver was written during a read-only operation (task %d, %s): a data race with every other reader", s.cur.id, siteName(site))}
@@ -777,7 +816,7 @@ func init() {
 			if tier == "thorough" {
 				return 3000000
 			}
-			return 150000
+			return 250000
 		},
 		Init: func() {
 			initFastGlobals()
